@@ -626,13 +626,52 @@ def ob_function_forms(Ne, nPg, dim):
         if isinstance(got, FeArray) != keeps:
             raise Refuted(f"np.linalg.{what} on a vector field (Ne={Ne}, nPg={nPg}, dim={dim}) returns {type(got).__name__} of shape {np.shape(got)}: the reduction "
                           f"{'keeps' if keeps else 'consumes'} the (Ne, nPg) axes", cex=dict(Ne=Ne, nPg=nPg, dim=dim, call=what), signature="function:norm:type", replay=dict(confirmed=True))
+    # keyword arguments do not change the rule of np.matmul
+    for what, a, b, subs in pairs[:2]:
+        want = np.einsum(subs, np.asarray(a), np.asarray(b))
+        buf = FeArray.asfearray(np.zeros(want.shape))
+        for form, f in (("np.matmul(a, b, dtype=float)", lambda: np.matmul(a, b, dtype=float)), ("np.matmul(a, b, out=buffer)", lambda: np.matmul(a, b, out=buf))):
+            try:
+                got = f()
+            except Exception as ex:
+                raise Refuted(f"{form} ({what}; Ne={Ne}, nPg={nPg}, dim={dim}) raises {type(ex).__name__}: {ex}", cex=dict(Ne=Ne, nPg=nPg, dim=dim, operands=what), signature=f"function:matmul:{form}:raises",
+                              replay=dict(confirmed=True))
+            n += 1
+            if np.shape(got) != want.shape or not np.allclose(np.asarray(got), want, rtol=1e-12, atol=1e-12):
+                raise Refuted(f"{form} ({what}; Ne={Ne}, nPg={nPg}, dim={dim}): shape {np.shape(got)}; `a @ b`, the product at every (e, p), has shape {want.shape}"
+                              + ("" if np.shape(got) != want.shape else f", max difference {np.abs(np.asarray(got) - want).max():.3e}"),
+                              cex=dict(Ne=Ne, nPg=nPg, dim=dim, operands=what, form=form), signature=f"function:matmul:{form}", replay=dict(confirmed=True))
+    # fields of different tensor extents joined along a tensor axis
+    a2, b3 = fld(2), fld(dim)
+    try:
+        got = np.concatenate([a2, b3], axis=-1)
+    except Exception as ex:
+        raise Refuted(f"np.concatenate([field (.., 2), field (.., {dim})], axis=-1) raises {type(ex).__name__}: {ex}", cex=dict(Ne=Ne, nPg=nPg, dim=dim), signature="function:concatenate:raises", replay=dict(confirmed=True))
+    n += 1
+    if not isinstance(got, FeArray) or got.shape != (Ne, nPg, 2 + dim):
+        raise Refuted(f"np.concatenate of two vector fields along the tensor axis returns {type(got).__name__} {np.shape(got)}", signature="function:concatenate:type", replay=dict(confirmed=True))
+    # the transpose of a field of rank < 2 is the field (as .T), never an exchange of the Gauss-point axis with a component axis
+    from EasyFEA.FEM._linalg import Transpose
+    for fe_ in (fld(dim), fld()):
+        got = Transpose(fe_)
+        n += 1
+        if np.shape(got) != fe_.shape or not np.array_equal(np.asarray(got), np.asarray(fe_)):
+            raise Refuted(f"Transpose(field of shape {fe_.shape}) returns shape {np.shape(got)}" + ("" if np.shape(got) != fe_.shape else " with permuted values") + f": a field of rank {fe_.ndim - 2} is its own transpose (as .T)",
+                          cex=dict(Ne=Ne, nPg=nPg, dim=dim, shape=list(fe_.shape)), signature="function:Transpose:rank", replay=dict(confirmed=True))
     # reductions that are not ndarray methods: typed by the axes they consume, never by a coincidence of extents
     M = fld(dim, dim)
     red = [("np.quantile(M, 0.5, axis=0)", lambda: np.quantile(M, 0.5, axis=0), False), ("np.quantile(M, 0.5, axis=-1)", lambda: np.quantile(M, 0.5, axis=-1), True),
            ("np.percentile(M, 50, axis=1)", lambda: np.percentile(M, 50, axis=1), False), ("np.percentile(M, 50, 2)", lambda: np.percentile(M, 50, 2), True),
            ("np.nanquantile(M, 0.5, axis=0)", lambda: np.nanquantile(M, 0.5, axis=0), False),
            ("np.trace(M)", lambda: np.trace(M), False), ("np.trace(M, axis1=2, axis2=3)", lambda: np.trace(M, axis1=2, axis2=3), True),
-           ("np.take(M, 0, axis=0)", lambda: np.take(M, 0, axis=0), False), ("np.cumsum(M, axis=-1)", lambda: np.cumsum(M, axis=-1), True)]
+           ("np.take(M, 0, axis=0)", lambda: np.take(M, 0, axis=0), False), ("np.cumsum(M, axis=-1)", lambda: np.cumsum(M, axis=-1), True),
+           ("np.cumsum(M, 0)", lambda: np.cumsum(M, 0), False), ("np.cumsum(M, axis=0)", lambda: np.cumsum(M, axis=0), False), ("np.sort(M, 0)", lambda: np.sort(M, 0), False), ("np.sort(M)", lambda: np.sort(M), True),
+           ("M.cumsum(0)", lambda: M.cumsum(0), False), ("M.cumsum(-1)", lambda: M.cumsum(-1), True), ("M.trace()", lambda: M.trace(), False), ("M.trace(0, 2, 3)", lambda: M.trace(0, 2, 3), True),
+           ("M.flatten()", lambda: M.flatten(), False), ("np.add.accumulate(M, 0)", lambda: np.add.accumulate(M, 0), False), ("np.add.accumulate(M, -1)", lambda: np.add.accumulate(M, -1), True),
+           ("np.swapaxes(M, 0, 1)", lambda: np.swapaxes(M, 0, 1), False), ("np.swapaxes(M, 2, 3)", lambda: np.swapaxes(M, 2, 3), True), ("np.transpose(M)", lambda: np.transpose(M), False),
+           ("M.transpose()", lambda: M.transpose(), False), ("M.transpose(0, 1, 3, 2)", lambda: M.transpose(0, 1, 3, 2), True), ("M.swapaxes(0, 1)", lambda: M.swapaxes(0, 1), False),
+           ("np.moveaxis(M, 0, 1)", lambda: np.moveaxis(M, 0, 1), False), ("np.stack([M, M], axis=0)", lambda: np.stack([M, M], axis=0), False), ("np.stack([M, M], axis=-1)", lambda: np.stack([M, M], axis=-1), True),
+           ("np.flip(M, 0)", lambda: np.flip(M, 0), False), ("np.roll(M, 1, 0)", lambda: np.roll(M, 1, 0), False), ("np.roll(M, 1, -1)", lambda: np.roll(M, 1, -1), True)]
     for what, f, keeps in red:
         got = f()
         n += 1
